@@ -9,8 +9,8 @@ Space : model/configuration points chosen to contain the named corner cases (enc
         pair, two full orders; thorough: the complete set-state graph (2^7 x 7 transitions) on three points
         and the quick subset also with clang++. Plus per point: the shell constructed, wired, used and
         destroyed from a SECOND translation unit linked against the separately compiled shell source
-        (every public member called); two shells generated with different prefixes (and one with the same
-        prefix) linked into one program; every #include "..." names a returned file or <base>.hh.
+        (every public member called); shells generated with different prefixes (incl. prefixes that differ only in a digit,
+        in letter case or in an underscore) and one with the same prefix linked into one program; every #include "..." names a returned file or <base>.hh.
 Oracle: the compiler and the linker (g++ -std=c++17; clang++ in thorough).
 """
 import itertools
@@ -63,7 +63,12 @@ def other_prefix_build(case):
     cfg3 = dict(case['cfg'])
     cfg3['suffix'] = 'Third'
     files3 = B.build(case['model'], cfg3)
-    return cfg, files, cfg3, files3
+    more = []
+    for suffix, prefix in (('V1', 'V1'), ('V2', 'V2'), ('Vlow', 'v1'), ('Vx', 'V_1')):
+        cfgx = dict(case['cfg'])
+        cfgx['suffix'], cfgx['prefix'] = suffix, prefix
+        more.append((cfgx, B.build(case['model'], cfgx)))
+    return cfg, files, cfg3, files3, more
 
 
 def coexist_main(facts, cfgs):
@@ -129,16 +134,19 @@ def plan(case, thorough, full_graph):
     src2['driver.cc'] = lab.gen_driver(facts, case['cfg'], include_source=False)
     tasks.append({'kind': 'other-tu', 'point': pid, 'src': src2, 'mains': [names[1], 'driver.cc']})
     # prefixes coexist
-    cfg2, files2, cfg3, files3 = other_prefix_build(case)
+    cfg2, files2, cfg3, files3, more = other_prefix_build(case)
     src3 = dict(src)
-    for name, text, _h in files2 + files3:
+    extra_files = [f for _c, fl in more for f in fl] if pid in ('base', 'mc=p0:0') else []
+    for name, text, _h in files2 + files3 + extra_files:
         if name in src3 and src3[name] != text:
             tasks.append({'kind': 'same-name-different-content', 'point': pid, 'file': name})
         src3[name] = text
     cfg1 = dict(case['cfg'])
-    src3['main_coexist.cc'] = coexist_main(facts, [cfg1, cfg2, cfg3])
+    cfgs = [cfg1, cfg2, cfg3] + ([c for c, _fl in more] if extra_files else [])
+    src3['main_coexist.cc'] = coexist_main(facts, cfgs)
     tasks.append({'kind': 'prefixes-coexist', 'point': pid, 'src': src3,
-                  'mains': [names[1], files2[1][0], files3[1][0], 'main_coexist.cc']})
+                  'mains': [names[1], files2[1][0], files3[1][0]] +
+                           ([fl[1][0] for _c, fl in more] if extra_files else []) + ['main_coexist.cc']})
     return tasks
 
 
